@@ -41,13 +41,15 @@ func C08(c *Ctx) {
 	r := c.R
 	r.Explain = "Decided statically (absence of the sources of non-determinism, and isolation): (R1a) every iteration over a map in the code that applies board messages (everything reachable from Poll/processMessage/reinitDKG, including all FSM callbacks and the FSM engine) is order-insensitive — it only touches the ranged element, writes map entries keyed by the range key, updates counters/flags, returns/stores constants, or appends to a slice that is sorted before use — or is a reviewed exemption; " +
 		"(R1b) clock, randomness and uuid are used on that path only at allow-listed sites whose value flows into time-stamp fields or ids of messages this node posts; the FSM packages use none; (R2) no FSM instance is cached: the node and the FSM service hold no field containing an instance or machine, processMessage gets its instance from GetFSMInstance (FromDump) and re-enters through FromDump after each hand-over; " +
-		"(R3) round isolation: every durable write of the handler is keyed by the envelope's DkgRoundID (SaveFSM key, NewOperation round, ReconstructedSignature.DKGRoundID at both store sites) and SaveFSM replaces exactly the entry of its key; (R4) addressing: a message is handled only if it has no recipient or this node is the recipient, in Poll and in the reinit replay. " +
+		"(R3) round isolation: every durable write of the handler is keyed by the envelope's DkgRoundID (SaveFSM key, NewOperation round, ReconstructedSignature.DKGRoundID at both store sites) and SaveFSM replaces exactly the entry of its key; (R4) addressing: a message is handled only if it has no recipient or this node is the recipient, in Poll and in the reinit replay; (R5) the log is applied entry by entry: Poll fetches from the durable position, handles a message before its position is saved as message.Offset+1, and saves it in every iteration (a position saved before handling makes delivery at-most-once: a node killed inside the handler differs for good from one that read the same log uninterrupted). " +
 		"NOT decided: functional determinism of kyber/JSON, equality of two nodes' states as an executed fact, deadline edge cases (control dependence on IsExpired is within the property's 'timestamps within the deadlines' proviso)."
 	r.Trusted = []string{"VTA call graph (scope of the replay path)", "sort.Ints/sort.Slice", "encoding/json map-key ordering", "go/ssa"}
 	r.Rule("C08/R1", "no map-order, clock or randomness dependence in the code that applies board messages", 20)
 	r.Rule("C08/R2", "the FSM instance is rebuilt from its dump for every message", 4)
 	r.Rule("C08/R3", "round isolation: durable writes are keyed by the envelope's round id", 5)
 	r.Rule("C08/R4", "addressing: only messages for this node (or broadcast) are handled", 2)
+	r.Rule("C08/R5", "every log entry is applied exactly once and in order: the poll position moves past a message only after it was handled, by one, from the durable position (= C13/R2)", 4)
+	c13PollAs(c, "C08/R5")
 	scope := c08Scope(c)
 	r.Count("replay_scope_functions", len(scope))
 	c08MapRanges(c, scope)
